@@ -12,8 +12,9 @@ LEVEL = "proof"
 RULE = ("msprime tree sequences (2-9 contemporaneous samples, 5-1000 bp integer coordinates, recombining, "
         "Kingman/Beta/Dirac mergers => polytomies); about half get missing data: 1-3 (sample, interval) pairs are "
         "isolated by cutting the sample's edges, some get a deleted interval (all samples missing there), then "
-        "simplify() removes the unary nodes; half of all inputs then get ALL node ids renumbered at random (samples not ids "
-        "0..n-1); x prior distribution (lognorm, gamma).  Non-trivial: >= 2 trees and at "
+        "simplify() removes the unary nodes; 30% of all inputs then get ALL node ids renumbered at random (samples not ids "
+        "0..n-1) and 45% go through gen.exotic (extra node flag bits, renumbering, mutations above roots, monomorphic sites, "
+        "unknown mutation times, arbitrary alleles, populations); x prior distribution (lognorm, gamma).  Non-trivial: >= 2 trees and at "
         "least one node whose span table has >= 2 entries; kinds record missing data / polytomies / several totals T")
 ASSUME = ["FIRST SENTENCE OF THE PROPERTY IS DECIDED DIFFERENTIALLY, NOT BY A THEOREM: SpansBySamples.first_pass is "
           "compared exactly (integer spans) with the reference tally spans_ref evaluated inside Coq on tskit's own "
@@ -49,6 +50,9 @@ def isolate(ts, pairs):
     tables.sort()
     tables.simplify()
     return tables.tree_sequence()
+
+
+DECO = {}
 
 
 def sym_blocks(rng):
@@ -87,10 +91,17 @@ def sym_blocks(rng):
 
 def make_ts(rng):
     ts, kind = make_ts0(rng)
-    if rng.random() < 0.5 and ts.num_nodes > 1:
+    if rng.random() < 0.3 and ts.num_nodes > 1:
         # node ids carry no meaning: samples need not be ids 0..n-1 (forward simulators, subset())
         ts = gen.permute_nodes(rng, ts)
         kind += "+perm"
+    if rng.random() < 0.45:
+        # valid-but-unusual decorations that must not matter: extra flag bits, renumbering, mutations above
+        # roots, monomorphic sites, unknown mutation times, arbitrary alleles, populations
+        ts, applied = gen.exotic(rng, ts, p=0.4)
+        if applied:
+            kind += "+exotic"
+            DECO[id(ts)] = applied
     return ts, kind
 
 
@@ -301,6 +312,8 @@ def run(ctx, model_ok=True):
             ctx.case({"kind": case["kind"], "trees": ts.num_trees, "nodes": ts.num_nodes, "raised": type(e).__name__},
                      nontrivial=False, kind=case["kind"] + "/raised")
             continue
+        for d in DECO.get(id(ts), []):
+            ctx.tally("deco:" + d)
         ok = oracle(ctx, case, ts, r, views)
         multi = any(len(d) >= 2 for d in r["spans"].values())
         poly = any(tree.num_children(u) > 2 for tree in ts.trees() for u in tree.nodes())
